@@ -592,3 +592,78 @@ func TestConcurrentGlob(t *testing.T) {
 	P.AddDistinct(len(items))
 	P.SetExtra("concurrent_like_statements", len(items))
 }
+
+// TestSiblingLikes: several like statements standing NEXT TO each other in one policy (as the joined policy of a proof
+// chain has them), over fields whose names and patterns are cut from one text at different places (.a + "bcd*",
+// .ab + "cd*", .abc + "d*" ...): every statement is judged on its own field with its own pattern; the policy matches
+// exactly when all of them hold. Every pair and triple of cuts, every assignment of matching / non-matching subjects,
+// both orders, constructor-built and IPLD-built.
+func TestSiblingLikes(t *testing.T) {
+	ctx := &h.Ctx{P: P, T: t}
+	n := 0
+	for _, text := range []string{"abcd", "file.name", "aaaa", `a\*b`} {
+		type cut struct{ field, pat string }
+		var cuts []cut
+		for i := 1; i < len(text); i++ {
+			f, p := text[:i], text[i:]+"*"
+			if strings.ContainsAny(f, `\*.`) || strings.HasSuffix(text[:i], `\`) {
+				continue
+			}
+			if _, valid := pol.Glob(p, ""); !valid {
+				continue
+			}
+			cuts = append(cuts, cut{f, p})
+		}
+		cuts = append(cuts, cut{"zz", "*"}, cut{"zz", text + "*"})
+		for i := range cuts {
+			for j := range cuts {
+				if i == j || cuts[i].field == cuts[j].field {
+					continue
+				}
+				for mask := 0; mask < 4; mask++ {
+					a, b := cuts[i], cuts[j]
+					sa, sb := instanceOf(a.pat, mask&1 == 0), instanceOf(b.pat, mask&2 == 0)
+					wa, _ := pol.Glob(a.pat, sa)
+					wb, _ := pol.Glob(b.pat, sb)
+					data := val.Map(val.E(a.field, val.Str(sa)), val.E(b.field, val.Str(sb)))
+					p := pol.Policy{{Op: "like", Sel: sel.Sel{{Kind: "field", Name: a.field}}, Pat: a.pat}, {Op: "like", Sel: sel.Sel{{Kind: "field", Name: b.field}}, Pat: b.pat}}
+					for _, viaIPLD := range []bool{false, true} {
+						built, err := p.Build(viaIPLD)
+						if err != nil {
+							continue
+						}
+						n++
+						got, _ := built.Match(data.Node())
+						if got != (wa && wb) {
+							ctx.Fail("C13/siblings/wrong-result", "policy [like .%s %q, like .%s %q] on {%s: %q, %s: %q}: Match = %v; the first statement is %v and the second %v on their own fields", a.field, a.pat, b.field, b.pat, a.field, sa, b.field, sb, got, wa, wb)
+							return
+						}
+					}
+				}
+			}
+		}
+	}
+	P.EvalN(n)
+	P.AddDistinct(n)
+	P.SetExtra("sibling_like_policies", n)
+}
+
+// instanceOf: a member of the pattern's language (wildcards filled with "zz"), or a near miss.
+func instanceOf(pat string, member bool) string {
+	var b strings.Builder
+	for i := 0; i < len(pat); i++ {
+		switch {
+		case pat[i] == '\\' && i+1 < len(pat):
+			i++
+			b.WriteByte(pat[i])
+		case pat[i] == '*':
+			b.WriteString("zz")
+		default:
+			b.WriteByte(pat[i])
+		}
+	}
+	if member {
+		return b.String()
+	}
+	return "#" + b.String()
+}
